@@ -23,6 +23,9 @@ type Obligation struct {
 	Line   string
 	Text   string
 	Models []string // constants to report on sat
+	// Replay describes how a counterexample of this obligation can be run against the real function (first-order units
+	// that ask for it with "opt replay"): the terms of the inputs and of the results, with their Go types.
+	Replay *ReplayInfo
 	Query  string
 	Res    SolverResult
 	// ExpectFail marks vacuity probes: the obligation must be refuted.
@@ -32,6 +35,39 @@ type Obligation struct {
 	// KnownFinding marks obligations listed as open findings: they are expected not to discharge, so they get a short
 	// time limit and no retry.
 	KnownFinding bool
+}
+
+// ReplayVar is one concrete input (parameter, or basic field of a struct a pointer parameter points to) or result.
+type ReplayVar struct {
+	Name   string // parameter name ("ac"), or "ac.Resource" for a field; "ret0" for results
+	GoType string // Go type as written in the package (string, int, bool, uint64, ...)
+	Term   string // SMT term whose model value is the input / whose value is pinned to the observed result
+	Sort   string
+}
+
+// ReplayInfo is attached to post-condition obligations of units that opt in.
+type ReplayInfo struct {
+	Func     string // function or method name
+	Recv     string // receiver type name without the star ("" for plain functions)
+	RecvPtr  bool
+	RecvName string
+	Pkg      string // import path
+	PkgName  string
+	Dir      string // package directory relative to the repository root
+	Inputs   []ReplayVar
+	Params   []ReplayParam
+	Results  []ReplayVar
+	// Complete: every field of every struct parameter is of basic type and therefore set from the model (no field is
+	// left at its zero value by the harness)
+	Complete bool
+}
+
+// ReplayParam is a parameter in call order: basic (Value from Inputs[Name]) or pointer to struct (fields from Inputs).
+type ReplayParam struct {
+	Name    string
+	GoType  string // for basic parameters
+	Struct  string // struct type name for pointer-to-struct parameters
+	Fields  []string
 }
 
 // Engine holds the loaded program and all contracts.
